@@ -8,6 +8,7 @@ import AtreeModel.Replay.World
 import AtreeModel.Replay.Settings
 import AtreeModel.Replay.Codec
 import AtreeModel.Replay.Iter
+import AtreeModel.Replay.SlabId
 /-
   atree_model: replays a trace (stdin) on the Lean model and compares every line the
   implementation produced with the model's own rendering.
@@ -88,6 +89,12 @@ partial def loopBatch (h : IO.FS.Stream) (s : BatchState) (n : Nat) : IO BatchSt
   let line := (line.dropRightWhile (fun c => c == '\n' || c == '\r'))
   loopBatch h (s.stepLine line n) (n + 1)
 
+partial def loopSlabId (h : IO.FS.Stream) (s : SidState) (n : Nat) : IO SidState := do
+  let line ← h.getLine
+  if line.isEmpty then return s
+  let line := (line.dropRightWhile (fun c => c == '\n' || c == '\r'))
+  loopSlabId h (s.stepLine line n) (n + 1)
+
 def main (args : List String) : IO UInt32 := do
   let stdin ← IO.getStdin
   match args with
@@ -130,11 +137,16 @@ def main (args : List String) : IO UInt32 := do
     let s := if s.pending.isEmpty then s else s.note s!"end of trace: model expected further lines: {s.pending}"
     IO.println ("RESULT " ++ reportJson "batch" s.rep)
     return (if s.rep.nMismatch == 0 then 0 else 1)
+  | ["slabid"] =>
+    let s ← loopSlabId stdin {} 1
+    let s := if s.pending.isEmpty then s else s.note s!"end of trace: model expected a further line: OBS {s.pending}"
+    IO.println ("RESULT " ++ reportJson "slabid" s.rep)
+    return (if s.rep.nMismatch == 0 then 0 else 1)
   | ["health"] =>
     let s ← loopHealth stdin {} 1
     let s := if s.pending.isEmpty then s else s.note s!"end of trace: model expected further lines: {s.pending}"
     IO.println ("RESULT " ++ reportJson "health" s.rep)
     return (if s.rep.nMismatch == 0 then 0 else 1)
   | _ =>
-    IO.eprintln "usage: atree_model <array|storage|health|map|world|settings|codec|iter|batch> < trace"
+    IO.eprintln "usage: atree_model <array|storage|health|map|world|settings|codec|iter|batch|slabid> < trace"
     return 2
